@@ -296,7 +296,9 @@ func c18UnknownSubstitution(r *Run) {
 		sel     string
 	}
 	pairs := []pair{
-		{func() interface{} { return map[string]interface{}{"meta": map[string]interface{}{"k": 1}} }, func(u interface{}) interface{} { return map[string]interface{}{"meta": map[string]interface{}{"k": 1, "version": u}} }, "meta.version"},
+		{func() interface{} { return map[string]interface{}{"meta": map[string]interface{}{"k": 1}} }, func(u interface{}) interface{} {
+			return map[string]interface{}{"meta": map[string]interface{}{"k": 1, "version": u}}
+		}, "meta.version"},
 		{func() interface{} { return map[string]interface{}{"a": 1} }, func(u interface{}) interface{} { return map[string]interface{}{"a": 1, "zz": u} }, "zz"},
 		{func() interface{} { return S7{Labels: map[string]string{"a": "b"}} }, nil, "lab.zz"},
 		{func() interface{} {
